@@ -99,6 +99,11 @@ def initial_cases(tier, seed):
         if order <= 2 and (cls == "ARBF" or tier == "thorough"):
             for layout in (("srbf-last", "srbf-slice-after", "arbf-unsorted", "interleaved") if prod else ("arbf-unsorted", "arbf-list")):
                 cases.append({"kind": "spline-additive", "cls": cls, "order": order, "prod": prod, "cs": 0, "layout": layout})
+    # several spline terms of the highest dimensionality (four indexes): a two-index subset RBF times second-order terms of
+    # three additive features, and a one-index subset RBF times third-order terms of four additive features
+    for cls in (["ARBF"] if tier == "quick" else ["ARBF", "AddRQ", "AddLLRBF"]):
+        cases.append({"kind": "spline-additive", "cls": cls, "order": 2, "prod": True, "cs": 0, "layout": "srbf2-arbf3"})
+        cases.append({"kind": "spline-additive", "cls": cls, "order": 3, "prod": True, "cs": 0, "layout": "srbf1-arbf4"})
     for cls in ("ARBFV2", "AddLLRBF", "AddRQ"):
         cases.append({"kind": "k0", "cls": cls})
     for c in cases:
@@ -326,10 +331,12 @@ def run_spline_additive(case):
     if layout:
         ck += ";layout=" + layout
         sidx, aidx = {"srbf-last": ([3], [0, 1]), "srbf-slice-after": (slice(2, 3), slice(0, 2)), "arbf-unsorted": ([0], [3, 1]),
-                      "interleaved": ([2], [4, 0, 3]), "arbf-list": (None, [1, 2, 4])}[layout]
+                      "interleaved": ([2], [4, 0, 3]), "arbf-list": (None, [1, 2, 4]),
+                      "srbf2-arbf3": ([0, 1], [2, 3, 4]), "srbf1-arbf4": ([0], [1, 2, 3, 4])}[layout]
         na = len(np.arange(NFEAT)[aidx])
-        a = cls(aidx, length_scale=LS[1:1 + na] * np.array([1.0, 1.7, 0.6])[:na], **kw)
-        kernel = K.SubsetRBF(sidx, length_scale=LS[:1] * 0.8) * a if case["prod"] else a
+        a = cls(aidx, length_scale=LS[1:1 + na] * np.array([1.0, 1.7, 0.6, 1.3])[:na], **kw)
+        ns = 1 if sidx is None else len(np.arange(NFEAT)[sidx])
+        kernel = K.SubsetRBF(sidx, length_scale=LS[:ns] * np.array([0.8, 1.1])[:ns]) * a if case["prod"] else a
     elif case["prod"]:
         a = cls(slice(1, 4), length_scale=LS[1:4], **kw)
         kernel = K.SubsetRBF(slice(0, 1), length_scale=LS[:1]) * a
